@@ -76,7 +76,9 @@ fn gen_case(seed: u64, i: u64) -> Case {
     let reach = reachable_blocks(f);
     if reach.len() < f.blocks().len() { tags.push("unreachable-block".into()); }
     let descr = describe(f);
-    Case { coq, nontrivial: f.locations().len() >= 4 && killed > 0 && killed != usize::MAX, key: descr.clone(), descr, tags }
+    let nelems = instr_count(f);
+    let descr = format!("{}{}", keep_prefix("instructions", nelems), descr);
+    Case { coq, nontrivial: f.locations().len() >= 4 && killed > 0 && killed != usize::MAX, key: descr.clone(), descr, tags }.with_elements(nelems)
 }
 
 fn main() {
